@@ -3,6 +3,7 @@ package rules
 import (
 	"fmt"
 	"go/token"
+	"go/types"
 	"sort"
 	"strings"
 
@@ -20,6 +21,21 @@ func init() {
 		Trusted:    []string{"go/ssa, go/types, CHA call graph", "package reflect"},
 		Run:        runC19,
 	})
+}
+
+// hasReferenceField: a struct type with a field through which a copy still reaches the original's storage.
+func hasReferenceField(t types.Type) bool {
+	st, ok := t.Underlying().(*types.Struct)
+	if !ok {
+		return false
+	}
+	for i := 0; i < st.NumFields(); i++ {
+		switch st.Field(i).Type().Underlying().(type) {
+		case *types.Map, *types.Slice, *types.Pointer, *types.Chan:
+			return true
+		}
+	}
+	return false
 }
 
 func runC19(c *core.Ctx) {
@@ -73,6 +89,21 @@ func runC19(c *core.Ctx) {
 					if wtp[cal][j] {
 						if g := globalRoot(a); g != nil && p.InModuleGlobal(g) {
 							report(g, ci.Pos(), "call "+core.FuncKey(cal))
+						}
+						// a local that was filled by copying a package-level struct: the copy is shallow, its maps,
+						// slices and pointers are still the package's
+						if al, ok := classifyForParam(a).(*ssa.Alloc); ok && hasReferenceField(al.Type().(*types.Pointer).Elem()) {
+							for _, ref := range *al.Referrers() {
+								st, ok := ref.(*ssa.Store)
+								if !ok || st.Addr != ssa.Value(al) {
+									continue
+								}
+								if u, ok := core.Strip(st.Val).(*ssa.UnOp); ok && u.Op == token.MUL {
+									if g, ok := u.X.(*ssa.Global); ok && p.InModuleGlobal(g) {
+										report(g, ci.Pos(), "call "+core.FuncKey(cal)+" on a shallow copy")
+									}
+								}
+							}
 						}
 					}
 				}
@@ -163,6 +194,57 @@ func runC19(c *core.Ctx) {
 
 	c.Rule("C19.infermemo", "schema inference infers each Go type once per call: in every recursive function of bindnode that takes a reflect.Type and accumulates a freshly spawned composite type into a TypeSystem, the Accumulate call is only reachable past the miss edge of a comma-ok lookup in a map keyed by that reflect.Type, and every path from the Accumulate to a return records the type in that map - so a Go type mentioned twice (two fields of one struct type, two []string fields) is not accumulated twice (TypeSystem.Accumulate panics on a duplicate name), and two different Go types are never merged by name", 2)
 	checkInferMemo(c)
+
+	c.Rule("C19.uintkinds", "every Go integer kind that can hold a value above MaxInt64 is presented as an unsigned node: the function of bindnode that chooses the node implementation for a Go value creates the node type implementing datamodel.UintNode behind a test of the value's reflect.Kind that admits reflect.Uint64 and reflect.Uint alike (the assembler stores into both without an upper bound, so a Go uint field can hold what only AsUint can report)", 1)
+	{
+		uintI := p.Iface("datamodel", "UintNode")
+		nfound := 0
+		for _, fn := range p.ModFns {
+			pk := core.FuncPkg(fn)
+			if pk == nil || core.RelPkg(pk.Path()) != "node/bindnode" || len(fn.Blocks) == 0 || fn.Synthetic != "" || uintI == nil {
+				continue
+			}
+			// allocates a UintNode implementation and returns it as a node
+			var allocs []*ssa.Alloc
+			core.Instrs(fn, func(in ssa.Instruction) {
+				al, ok := in.(*ssa.Alloc)
+				if !ok || !al.Heap {
+					return
+				}
+				if types.Implements(al.Type(), uintI) {
+					allocs = append(allocs, al)
+				}
+			})
+			if len(allocs) == 0 {
+				continue
+			}
+			kinds := map[int64]bool{}
+			for _, e := range core.IfEdges(fn) {
+				for _, a := range core.ImpliedAtoms(e) {
+					if a.Rel == nil || a.Rel.Op != token.EQL {
+						continue
+					}
+					x, y := a.Rel.X, a.Rel.Y
+					if core.ConstVal(x) != nil {
+						x, y = y, x
+					}
+					nt := namedOfType(x.Type())
+					if nt == nil || nt.Obj().Pkg() == nil || nt.Obj().Pkg().Path() != "reflect" || nt.Obj().Name() != "Kind" {
+						continue
+					}
+					if k, ok := core.ConstInt(y); ok {
+						kinds[k] = true
+					}
+				}
+			}
+			nfound++
+			const kUint, kUint64 = 7, 11 // reflect.Uint, reflect.Uint64
+			c.Check(kinds[kUint] && kinds[kUint64], core.FuncKey(fn)+"#unsigned-kinds", p.Pos(allocs[0].Pos()), "reflect.Uint and reflect.Uint64 both get the unsigned node", "the unsigned node is chosen for some 64-bit unsigned Go kinds only: a Go uint (or uint64) field holding a value above MaxInt64 - which the assembler accepts - is presented as a plain int node whose AsInt fails, so the value that was unmarshalled cannot be marshalled again")
+		}
+		if nfound == 0 {
+			c.Undecided("node/bindnode#uint-node-chooser", "-", "no function creates a node type implementing datamodel.UintNode")
+		}
+	}
 
 	c.Rule("C19.unwrap", "Unwrap returns Addr().Interface() of the reflect.Value held in the node (field val of _node / _nodeRepr), never of a copy", 1)
 	if fn := p.Func("node/bindnode", "", "Unwrap"); fn != nil {
